@@ -14,7 +14,7 @@ EXTENDS Naturals, Sequences, FiniteSets, TLC, Json, IOUtils
 
 Tr == JsonDeserialize(IOEnv.X_IN)
 
-D == INSTANCE StoreTx WITH Shapes <- {}, Mode <- "required",
+D == INSTANCE StoreTx WITH Shapes <- {}, Mode <- "required", Journal <- "disk", spill <- 0,
        sh <- 0, pc <- 0, conn <- 0, work <- 0, durable <- 0, reg <- 0, phase <- 0, status <- 0, log <- 0
 
 VARIABLES t, i, s, verdict
